@@ -31,6 +31,9 @@ Cfg swarm_cfg(Rng& r, const SwarmOpts& o);
 // vary the machine numbers the unit factors depend on (synchrotron frequency instead of alpha0, StepsPerRevolution,
 // bending radius, energy, spread, voltage, revolution frequency), keeping the number of executed steps
 void vary_machine(Rng& r, Cfg& c);
+// widen towards the documented domain (zoom, shifts up to a third of the grid, grid extent, padding, voltage, harmonic number,
+// higher-order momentum compaction, one-point interpolation, large modulation amplitudes); for bit-exact oracles only
+void wild_cfg(Rng& r, Cfg& c);
 
 // input-file authoring
 std::string gen_tracking(Rng& r, const Cfg& c, long n);        // "q p" lines in physical (normalised) coordinates
